@@ -46,7 +46,14 @@ type Ctx struct {
 	budget int // scale factor
 }
 
-func (c *Ctx) add(cs Case) { c.cases = append(c.cases, cs) }
+func (c *Ctx) add(cs Case) { c.cases = append(c.cases, cs); stage = "" }
+
+// stage describes the call of the real code that is about to run, for the
+// watchdogs: if that call never returns (or eats all memory) the description
+// of its input is reported as the failing input.
+var stage string
+
+func (c *Ctx) begin(format string, a ...any) { stage = fmt.Sprintf(format, a...) }
 
 // n scales a quick-tier count to the tier.
 func (c *Ctx) n(quick int) int {
@@ -169,8 +176,13 @@ func main() {
 		if len(st) > 1500 {
 			st = st[:1500]
 		}
-		emit(Report{Property: *prop, Tier: *tier, Seed: *seed, Kinds: map[string]int{},
-			Error: fmt.Sprintf("no result after %v: probable non-termination of the real code; main goroutine: %s", limit, st)})
+		r := Report{Property: *prop, Tier: *tier, Seed: *seed, Kinds: map[string]int{},
+			Error: fmt.Sprintf("no result after %v: probable non-termination of the real code; main goroutine: %s", limit, st)}
+		if stage != "" {
+			r.NOracleFails = 1
+			r.OracleFails = []Diff{{What: "the real code does not return", Note: stage}}
+		}
+		emit(r)
 		os.Exit(3)
 	}()
 	ctx := &Ctx{prop: *prop, tier: *tier, rng: rand.New(rand.NewSource(*seed)), thor: *tier == "thorough"}
@@ -187,8 +199,13 @@ func main() {
 				if n := len(ctx.cases); n > 0 {
 					last = ctx.cases[n-1].Kind + ": " + trunc(ctx.cases[n-1].Note, 200)
 				}
-				emit(Report{Property: *prop, Tier: *tier, Seed: *seed, Kinds: map[string]int{},
-					Error: fmt.Sprintf("heap grew beyond %d GiB while running the real code (probable non-termination); last completed case: %s", memLimit>>30, last)})
+				r := Report{Property: *prop, Tier: *tier, Seed: *seed, Kinds: map[string]int{},
+					Error: fmt.Sprintf("heap grew beyond %d GiB while running the real code (probable non-termination); last completed case: %s", memLimit>>30, last)}
+				if stage != "" {
+					r.NOracleFails = 1
+					r.OracleFails = []Diff{{What: "the real code does not return and grows without bound", Note: stage}}
+				}
+				emit(r)
 				os.Exit(3)
 			}
 		}
